@@ -45,6 +45,17 @@ def check_object(obj, X, tag, viol, expect=None):
                 break
     except Exception as exc:  # noqa
         viol.append({"kind": f"{tag}transform-raises", "what": f"{tag}transform of the re-indexed training frame raised {type(exc).__name__}: {str(exc)[:100]}"})
+    # observers must not change what transform does afterwards
+    try:
+        obj.summary()
+        obj.to_json()
+        out2 = obj.transform(X.copy())
+        for f in obj.features:
+            if not same_values(out2[f].tolist(), out[f].tolist()):
+                viol.append({"kind": f"{tag}changed-by-observers", "what": f"{tag}{f}: transform(X_train) differs after summary() / to_json() were called: {out2[f].tolist()[:4]} vs {out[f].tolist()[:4]}"})
+                break
+    except Exception as exc:  # noqa
+        viol.append({"kind": f"{tag}observer-raises", "what": f"{tag}summary()/to_json()/transform sequence raised {type(exc).__name__}: {str(exc)[:100]}"})
     if expect is not None:
         for f in obj.features:
             if f in expect and not same_values(out[f].tolist(), expect[f]):
